@@ -79,11 +79,36 @@ def enclosing_fn_in_text(lines, idx):
 
 
 def run_unit(unit_name, repo='/repo', workdir=None, rlimit=None, extra_args=None, mutate=None, keep=False):
+    auto_items = []
+    last = None
+    for _round in range(6):
+        last = _run_unit_once(unit_name, repo, workdir, rlimit, extra_args, mutate, keep, auto_items)
+        if last.status != 'inconclusive' or not last.missing_names:
+            break
+        unit_cfg = extract.load_unit(os.path.join(VERIF, 'units', unit_name))
+        added = False
+        for nm, hint in last.missing_names:
+            loc = extract.locate_item(unit_cfg, repo, nm, hint)
+            if loc and loc not in auto_items:
+                auto_items.append(loc)
+                added = True
+        if not added:
+            break
+    return last
+
+
+MISSING_RE = re.compile(r"cannot find (?:value|function|type|struct|tuple struct|constant|static|struct, variant or union type|function, tuple struct or tuple variant|trait) `([A-Za-z_][A-Za-z0-9_]*)`")
+MISSING_ASSOC_RE = re.compile(r"no (?:method|function or associated item|associated item) named `([A-Za-z_][A-Za-z0-9_]*)` found for (?:struct|enum|reference|type)? ?`?&?(?:mut )?(?:code::)?([A-Za-z_][A-Za-z0-9_]*)")
+UNDECLARED_RE = re.compile(r"use of undeclared type `([A-Za-z_][A-Za-z0-9_]*)`")
+
+
+def _run_unit_once(unit_name, repo, workdir, rlimit, extra_args, mutate, keep, auto_items):
     r = UnitRun(unit_name)
+    r.missing_names = []
     unit_dir = os.path.join(VERIF, 'units', unit_name)
     t0 = time.time()
     try:
-        g = extract.build(unit_dir, repo, mutate=mutate)
+        g = extract.build(unit_dir, repo, mutate=mutate, auto_items=auto_items)
     except extract.LostAnchor as e:
         r.reason = 'lost-anchor: %s' % e
         return r
@@ -145,6 +170,12 @@ def run_unit(unit_name, repo='/repo', workdir=None, rlimit=None, extra_args=None
         last_err = rec
         r.raw_errors.append(rec)
         if rec['code'] or not REFUTE_RE.search(msg):
+            m_ = MISSING_RE.search(msg) or UNDECLARED_RE.search(msg)
+            if m_:
+                r.missing_names.append((m_.group(1), None))
+            m_ = MISSING_ASSOC_RE.search(msg)
+            if m_:
+                r.missing_names.append((m_.group(1), m_.group(2)))
             if RLIMIT_RE.search(msg):
                 inconclusive.append('rlimit: ' + msg)
             elif 'not supported' in msg or 'unsupported' in msg.lower():
